@@ -60,7 +60,8 @@ class Conduct(core.Scenario):
             srv.append(core.Action('WS<-accept', lambda s: s.world.ws_decide(s.world.server.pending_ws()[0], True), en_ws))
             srv.append(core.Action('WS<-open', lambda s: s.world.ws_push(live_ws(s)[-1], '0' + json.dumps(opn)), lambda s: bool(live_ws(s))))
         else:
-            srv.append(core.Action('GET<-open', lambda s: s.world.answer(s.world.server.pending_reqs('GET')[0], 200, '0' + json.dumps(opn)), en_get))
+            piggy = ''.join('\x1e' + x for x in p.get('piggy', []))
+            srv.append(core.Action('GET<-open', lambda s: s.world.answer(s.world.server.pending_reqs('GET')[0], 200, '0' + json.dumps(opn) + piggy), en_get))
             if self.mode == 'upgrade_refused':
                 srv.append(core.Action('WS<-refuse', lambda s: s.world.ws_decide(s.world.server.pending_ws()[0], False), en_ws))
             elif self.mode.startswith('upgrade'):
@@ -148,7 +149,7 @@ class Conduct(core.Scenario):
             return
         out = self.client_output()
         # ---- PONG echo: one PONG with identical data per PING
-        pings = []
+        pings = [x[1:] for x in p.get('piggy', []) if x.startswith('2')]
         for name in p['pushes']:
             for one in PUSHES[name]:
                 if one.startswith('2'):
@@ -157,7 +158,7 @@ class Conduct(core.Scenario):
         if sorted(pongs) != sorted(pings) or pongs != pings:
             self.flag('pong_echo_wrong', 'PINGs with data %r were answered by PONGs %r' % (pings, pongs), trigger=trig)
         # ---- server messages reach the handler once, in arrival order, decoded
-        want_msgs = []
+        want_msgs = [x[1:] for x in p.get('piggy', []) if x.startswith('4')]
         for name in p['pushes']:
             for one in PUSHES[name]:
                 if one in EXPECT_MSG:
@@ -309,6 +310,10 @@ def param_list(ctx):
                 for ns in ((0, 3) if ctx.quick else (0, 2, 4)):
                     ps.append({'impl': impl, 'mode': mode, 'pushes': sq, 'nsend': ns})
             ps.append({'impl': impl, 'mode': mode, 'pushes': [], 'nsend': 4})
+        for mode in ('polling', 'upgrade_ok', 'upgrade_wrong', 'upgrade_refused'):
+            for sq in ([], ['msg']):
+                ps.append({'impl': impl, 'mode': mode, 'pushes': sq, 'nsend': 1, 'piggy': ['4welcome', '2hs']})
+                ps.append({'impl': impl, 'mode': mode, 'pushes': sq, 'nsend': 0, 'piggy': ['4w1', '4w2']})
         for mode in ('upgrade_wrong', 'upgrade_silent', 'upgrade_refused'):
             for sq in ([], ['burst'], ['pingx', 'msg']):
                 for ns in (0, 3):
